@@ -40,4 +40,565 @@ theorem pyIntLogRatio_four_pow (k : Nat) :
   simp only [pyIntLogRatio, asInt?_int, hc, if_false, Int.toNat_natCast]
   rw [show (4 : Int).toNat = 4 from rfl, natLogFuel_four_pow k _ hlt]
 
+/-! ## the score table as a list of rows -/
+
+/-- a two-dimensional array of naturals. -/
+def matN (rows : List (List Nat)) : PV := .arr (rows.map fun r => .arr (r.map fun (x : Nat) => .int (x : Int)))
+
+theorem scoresPV_eq (sc : Array (Array Nat)) : scoresPV sc = matN (sc.toList.map Array.toList) := by
+  simp only [scoresPV, matN, List.map_map, Function.comp_def]
+
+theorem foldl_max_cast (xs : List Nat) (x : Nat) :
+    (xs.map fun (n : Nat) => (n : Int)).foldl max (x : Int) = ((xs.foldl max x : Nat) : Int) := by
+  induction xs generalizing x with
+  | nil => rfl
+  | cons y ys ih =>
+    rw [List.map_cons, List.foldl_cons, List.foldl_cons, ← ih]
+    congr 1; omega
+
+theorem mapM_rows (f : PV → Option (List Int))
+    (hf : ∀ r : List Nat, f (.arr (r.map fun (x : Nat) => PV.int (x : Int))) = some (r.map fun (n : Nat) => (n : Int)))
+    (rows : List (List Nat)) :
+    (rows.map fun r => PV.arr (r.map fun (x : Nat) => PV.int (x : Int))).mapM f =
+      some (rows.map fun r => r.map fun (n : Nat) => (n : Int)) := by
+  induction rows with
+  | nil => rfl
+  | cons r rs ih => rw [List.map_cons, List.mapM_cons, hf, ih]; rfl
+
+theorem flattenInts_matN (rows : List (List Nat)) :
+    flattenInts (matN rows) = some (rows.flatten.map fun (n : Nat) => (n : Int)) := by
+  simp only [flattenInts, matN]
+  rw [mapM_rows _ (fun r => mapM_asInt?_nats r), Option.map_some, List.map_flatten]
+
+/-- `max(scores)`. -/
+theorem npMax_matN {rows : List (List Nat)} (h : rows.flatten ≠ []) :
+    npMax (matN rows) = .ok (.int ((rows.flatten.foldl max 0 : Nat) : Int)) := by
+  rw [npMax, flattenInts_matN]
+  cases hf : rows.flatten with
+  | nil => exact absurd hf h
+  | cons x xs =>
+    simp only [List.map_cons, List.foldl_cons, foldl_max_cast, Nat.zero_max]
+
+/-- `scores == mx`. -/
+theorem npCmp_matN (c : PV → PV → R Bool) (b : Int) (p : Nat → Bool)
+    (h : ∀ x : Nat, c (.int x) (.int b) = .ok (p x)) (rows : List (List Nat)) :
+    npCmp c (matN rows) (.int b) = .ok (.arr (rows.map fun r => .arr (r.map fun x => .bool (p x)))) := by
+  rw [matN, npCmp, arrBroadcast_map_int (g := fun (r : List Nat) => PV.arr (r.map fun x => .bool (p x)))]
+  intro r
+  show arrBroadcast (liftCmp c) (.arr (r.map fun (x : Nat) => .int (x : Int))) (.int b) = _
+  rw [arrBroadcast_map_int (g := fun x => PV.bool (p x))]
+  intro x; rw [liftCmp_def, h]; rfl
+
+/-! ## `where` on a two-dimensional array of bools -/
+
+/-- the row index of every cell that satisfies `p`, row-major. -/
+def rowIdx (p : Nat → Bool) : List (List Nat) → Nat → List Nat
+  | [], _ => []
+  | r :: rs, i => List.replicate (r.filter p).length i ++ rowIdx p rs (i + 1)
+
+theorem length_trueIdx_map_bool (p : Nat → Bool) (r : List Nat) (j : Nat) :
+    (trueIdx (r.map fun x => .bool (p x)) j).length = (r.filter p).length := by
+  induction r generalizing j with
+  | nil => rfl
+  | cons x xs ih =>
+    rw [List.map_cons, trueIdx_cons_bool, List.filter_cons]
+    cases p x <;> simp [ih]
+
+theorem trueIdx2_bools (p : Nat → Bool) (rows : List (List Nat)) (i : Nat) :
+    (trueIdx2 (rows.map fun r => .arr (r.map fun x => .bool (p x))) i).1 =
+      (rowIdx p rows i).map fun (n : Nat) => PV.int (n : Int) := by
+  induction rows generalizing i with
+  | nil => rfl
+  | cons r rs ih =>
+    simp only [List.map_cons, trueIdx2, rowIdx, ih, List.map_append, List.map_replicate]
+    rw [List.map_const', length_trueIdx_map_bool]
+
+theorem mem_rowIdx (p : Nat → Bool) (rows : List (List Nat)) (i v : Nat) :
+    v ∈ rowIdx p rows i ↔ i ≤ v ∧ ∃ r, rows[v - i]? = some r ∧ r.any p = true := by
+  induction rows generalizing i with
+  | nil => simp [rowIdx]
+  | cons r rs ih =>
+    simp only [rowIdx, List.mem_append, List.mem_replicate, ih]
+    constructor
+    · rintro (⟨hn, rfl⟩ | ⟨hle, r', hr', hp⟩)
+      · refine ⟨Nat.le_refl _, r, by simp, ?_⟩
+        rw [List.any_eq_true]
+        have : 0 < (r.filter p).length := Nat.pos_of_ne_zero hn
+        obtain ⟨x, hx⟩ := List.exists_mem_of_length_pos this
+        exact ⟨x, (List.mem_filter.mp hx).1, (List.mem_filter.mp hx).2⟩
+      · refine ⟨by omega, r', ?_, hp⟩
+        have : v - i = (v - (i + 1)) + 1 := by omega
+        rw [this, List.getElem?_cons_succ]; exact hr'
+    · rintro ⟨hle, r', hr', hp⟩
+      by_cases hv : v = i
+      · subst hv
+        left
+        rw [Nat.sub_self, List.getElem?_cons_zero, Option.some.injEq] at hr'
+        subst hr'
+        refine ⟨?_, rfl⟩
+        rw [List.any_eq_true] at hp
+        obtain ⟨x, hx, hpx⟩ := hp
+        have : x ∈ r.filter p := List.mem_filter.mpr ⟨hx, hpx⟩
+        exact List.length_pos_iff.mpr (List.ne_nil_of_mem this) |> Nat.ne_of_gt
+      · right
+        refine ⟨by omega, r', ?_, hp⟩
+        have : v - i = (v - (i + 1)) + 1 := by omega
+        rw [this, List.getElem?_cons_succ] at hr'; exact hr'
+
+/-- `where(scores == mx)[0]`. -/
+theorem npWhere_rows (p : Nat → Bool) {rows : List (List Nat)} (h : rows ≠ []) :
+    (bnd (npWhere (.arr (rows.map fun r => .arr (r.map fun x => .bool (p x))))) fun t => pyIndex t (.int 0)) =
+      .ok (.arr ((rowIdx p rows 0).map fun (n : Nat) => PV.int (n : Int))) := by
+  have ha : (rows.map fun r => PV.arr (r.map fun x => PV.bool (p x))).any PV.isArr = true := by
+    cases rows with
+    | nil => exact absurd rfl h
+    | cons r rs => simp [PV.isArr]
+  simp only [npWhere, ha, if_true, bnd_ok, pyIndex_tup_cons_zero, trueIdx2_bools]
+
+/-! ## `unique`, `intersect1d` -/
+
+theorem mem_foldr_insertInt (z : Int) (l : List Int) : z ∈ l.foldr insertInt [] ↔ z ∈ l := by
+  induction l with
+  | nil => simp
+  | cons x xs ih => rw [List.foldr_cons, GzS.mem_insertInt, ih, List.mem_cons]
+
+theorem foldr_insertInt_sorted {l : List Int} (h : l.Pairwise (· < ·)) : l.foldr insertInt [] = l := by
+  induction l with
+  | nil => rfl
+  | cons x xs ih =>
+    rw [List.pairwise_cons] at h
+    rw [List.foldr_cons, ih h.2]
+    cases xs with
+    | nil => rfl
+    | cons y ys =>
+      have : x < y := h.1 y (by simp)
+      simp [insertInt, this]
+
+theorem npUnique_nats (l : List Nat) :
+    npUnique (.arr (l.map fun (n : Nat) => PV.int (n : Int))) =
+      .ok (.arr (((l.map fun (n : Nat) => (n : Int)).foldr insertInt []).map PV.int)) := by
+  simp only [npUnique, mapM_asInt?_nats]
+
+theorem sorted_obtainVertices (a : Acc) : ((obtainVertices a).map fun (n : Nat) => (n : Int)).Pairwise (· < ·) := by
+  unfold obtainVertices
+  have h := List.Pairwise.filter (fun v => (a.getD v #[]).any (fun e => e + 1 != 0))
+    (List.pairwise_lt_range (n := a.size))
+  exact List.Pairwise.map _ (fun _ _ hxy => by omega) h
+
+/-- `intersect1d(vertices, unique(rows))` for an ascending `vertices`: the vertices that are among the rows. -/
+theorem npIntersect1d_sorted {ov : List Nat} (hs : (ov.map fun (n : Nat) => (n : Int)).Pairwise (· < ·))
+    (R : List Nat) (q : Nat → Bool) (hq : ∀ v ∈ ov, q v = true ↔ v ∈ R) :
+    npIntersect1d (idxArrPV ov) (.arr (((R.map fun (n : Nat) => (n : Int)).foldr insertInt []).map PV.int)) =
+      .ok (idxArrPV (ov.filter q)) := by
+  simp only [npIntersect1d, idxArrPV, mapM_asInt?_nats, mapM_asInt?_ints, foldr_insertInt_sorted hs]
+  rw [List.filter_map, List.map_map]
+  congr 3
+  apply List.filter_congr
+  intro v hv
+  rw [Bool.eq_iff_iff, Function.comp_apply, List.contains_iff_mem, mem_foldr_insertInt, hq v hv, List.mem_map]
+  constructor
+  · rintro ⟨w, hw, he⟩
+    have : w = v := by omega
+    subst this; exact hw
+  · intro h; exact ⟨v, h, rfl⟩
+
+/-! ## `argmax` of one row -/
+
+theorem idxOf_map_cast (l : List Nat) (x : Nat) :
+    (l.map fun (n : Nat) => (n : Int)).idxOf (x : Int) = l.idxOf x := by
+  induction l with
+  | nil => rfl
+  | cons y ys ih =>
+    rw [List.map_cons, List.idxOf_cons, List.idxOf_cons, ih, natCast_beq]
+
+/-- `argmax(scores[former])`. -/
+theorem npArgmax_nats {l : List Nat} (h : l ≠ []) :
+    npArgmax (.arr (l.map fun (n : Nat) => PV.int (n : Int))) = .ok (.int ((argmax l : Nat) : Int)) := by
+  simp only [npArgmax, mapM_asInt?_nats]
+  cases l with
+  | nil => exact absurd rfl h
+  | cons k ks =>
+    simp only [List.map_cons, List.foldl_cons, Int.max_self, foldl_max_cast, argmax, Nat.zero_max]
+    rw [← List.map_cons (f := fun (n : Nat) => (n : Int)), idxOf_map_cast]
+
+theorem foldl_max_mem (l : List Nat) (k : Nat) : l.foldl max k ∈ k :: l := by
+  induction l generalizing k with
+  | nil => simp
+  | cons y ys ih =>
+    rw [List.foldl_cons]
+    rcases List.mem_cons.mp (ih (max k y)) with he | hm
+    · rw [he]
+      rcases Nat.le_total k y with hky | hky
+      · rw [Nat.max_eq_right hky]; simp
+      · rw [Nat.max_eq_left hky]; simp
+    · simp [hm]
+
+theorem argmax_lt {l : List Nat} (h : l ≠ []) : argmax l < l.length := by
+  unfold argmax
+  apply List.idxOf_lt_length_of_mem
+  cases l with
+  | nil => exact absurd rfl h
+  | cons k ks =>
+    rw [List.foldl_cons, Nat.zero_max]
+    exact foldl_max_mem ks k
+
+/-! ## the tail: `reshape(-1)`, the positive scores, the histogram -/
+
+theorem npFlatten_matN (rows : List (List Nat)) :
+    npFlatten (matN rows) = .ok (.arr (rows.flatten.map fun (n : Nat) => PV.int (n : Int))) := by
+  simp only [npFlatten, matN, List.flatMap_def, List.map_map, List.map_flatten]
+  rfl
+
+theorem npToList_nats (l : List Nat) :
+    npToList (.arr (l.map fun (n : Nat) => PV.int (n : Int))) = .ok (natsPV l) := by
+  simp only [npToList, List.map_map, natsPV]
+  congr 2
+
+/-- `scores[scores > 0].tolist()`. -/
+theorem positive_expr (fl : List Nat) :
+    (bnd (bnd (npCmp pyGt (.arr (fl.map fun (n : Nat) => PV.int (n : Int))) (.int 0))
+        fun t => npMaskIndex (.arr (fl.map fun (n : Nat) => PV.int (n : Int))) t) fun t => npToList t) =
+      .ok (natsPV (fl.filter (· > 0))) := by
+  rw [npCmp_nats_int (p := fun x => decide (x > 0)) (fun x => pyGt_nat_zero x)]
+  simp only [bnd_ok, npMaskIndex, GzV.maskSelect_map, R_map_ok, npToList_nats]
+
+/-- the keys a `Counter` collects are items of the list. -/
+theorem counter_keys_spec (items : List PV) (ks0 : List PV) :
+    (∀ x ∈ items.foldl (fun ks x => if (findIdxEq x ks 0).isSome then ks else ks ++ [x]) ks0,
+        x ∈ ks0 ∨ x ∈ items) ∧
+      ((ks0 ≠ [] ∨ items ≠ []) →
+        items.foldl (fun ks x => if (findIdxEq x ks 0).isSome then ks else ks ++ [x]) ks0 ≠ []) := by
+  induction items generalizing ks0 with
+  | nil => exact ⟨fun x hx => Or.inl hx, fun h => h.elim id (fun h => absurd rfl h)⟩
+  | cons y ys ih =>
+    rw [List.foldl_cons]
+    obtain ⟨h1, h2⟩ := ih (if (findIdxEq y ks0 0).isSome then ks0 else ks0 ++ [y])
+    refine ⟨fun x hx => ?_, fun _ => h2 (Or.inl ?_)⟩
+    · rcases h1 x hx with h | h
+      · split at h
+        · exact Or.inl h
+        · rcases List.mem_append.mp h with h | h
+          · exact Or.inl h
+          · right; rw [List.mem_singleton.mp h]; exact List.mem_cons_self
+      · exact Or.inr (List.mem_cons_of_mem _ h)
+    · split
+      · next hs =>
+        intro he; rw [he] at hs; simp at hs
+      · simp
+
+theorem exists_ints_of_forall {l : List PV} (h : ∀ x ∈ l, ∃ i : Int, x = .int i) : ∃ K : List Int, l = K.map PV.int := by
+  induction l with
+  | nil => exact ⟨[], rfl⟩
+  | cons x xs ih =>
+    obtain ⟨i, rfl⟩ := h x List.mem_cons_self
+    obtain ⟨K, rfl⟩ := ih (fun y hy => h y (List.mem_cons_of_mem _ hy))
+    exact ⟨i :: K, rfl⟩
+
+theorem zipPairs_map (K : List Int) (F : PV → PV) :
+    zipPairs (K.map PV.int) ((K.map PV.int).map F) = K.map fun k => PV.tup [.int k, F (.int k)] := by
+  induction K with
+  | nil => rfl
+  | cons k ks ih => simp only [List.map_cons, zipPairs, ih]
+
+/-- the two-row histogram `array(list(Counter(scores).items())).T`. -/
+def recordPV (K : List Int) (F : PV → PV) : PV :=
+  .arr [.arr (K.map PV.int), .arr (K.map fun k => F (.int k))]
+
+/-- `array(list(Counter(scores).items())).T` when some score is positive: two rows (values, counts). -/
+theorem record_expr {pos : List Nat} (h : pos ≠ []) :
+    ∃ (K : List Int) (c : Int → Int), 
+      (bnd (bnd (bnd (bnd (pyCounter (natsPV pos)) fun t => pyDictItems t) fun t => pyList t) fun t => npArray t)
+        fun t => npT t) = .ok (.arr [.arr (K.map PV.int), .arr (K.map fun k => PV.int (c k))]) := by
+  obtain ⟨h1, h2⟩ := counter_keys_spec (pos.map fun (n : Nat) => PV.int (n : Int)) []
+  have hne := h2 (Or.inr (by simpa using h))
+  obtain ⟨K, hK⟩ := exists_ints_of_forall (l := (pos.map fun (n : Nat) => PV.int (n : Int)).foldl
+      (fun ks x => if (findIdxEq x ks 0).isSome then ks else ks ++ [x]) []) (fun x hx => by
+    rcases h1 x hx with h | h
+    · cases h
+    · obtain ⟨n, _, rfl⟩ := List.mem_map.mp h
+      exact ⟨_, rfl⟩)
+  refine ⟨K, fun k => (((pos.map fun (n : Nat) => PV.int (n : Int)).filter fun x => PV.eqb x (.int k)).length : Nat), ?_⟩
+  simp only [pyCounter, natsPV, pyIter_list, hK, bnd_ok, pyDictItems]
+  rw [zipPairs_map K (fun k => PV.int (((pos.map fun (n : Nat) => PV.int (n : Int)).filter
+    fun x => PV.eqb x k).length : Nat))]
+  simp only [pyList_list, bnd_ok, npArray]
+  rw [mapM'_map (f := npArrayItem) (emb := fun k => PV.tup [.int k, _]) (g := fun k => PV.arr [.int k, _])
+    (fun _ _ => rfl)]
+  cases K with
+  | nil => rw [hK] at hne; exact absurd rfl hne
+  | cons k ks =>
+    simp only [R_map_ok, bnd_ok, List.map_cons, npT, List.length_cons, List.length_nil]
+    simp [List.range_succ, List.map_map, Function.comp_def]
+
+theorem record_expr_nil :
+    (bnd (bnd (bnd (bnd (pyCounter (natsPV [])) fun t => pyDictItems t) fun t => pyList t) fun t => npArray t)
+        fun t => npT t) = .ok (.arr []) := rfl
+
+/-- `score_record[:, argsort(score_record[0])[::-1]]` succeeds on a two-row record. -/
+theorem sort_expr (K : List Int) (c : Int → Int) :
+    ∃ v, (bnd (bnd (bnd (pyIndex (.arr [.arr (K.map PV.int), .arr (K.map fun k => PV.int (c k))]) (.int 0))
+        fun t => npArgsort t) fun t => pyReverse t)
+        fun t => npIndexCols (.arr [.arr (K.map PV.int), .arr (K.map fun k => PV.int (c k))]) t) = .ok v := by
+  simp only [pyIndex_arr_cons_zero, bnd_ok, npArgsort_ints, pyReverse_arr, npIndexCols]
+  have hrow : ∀ (A : List PV), A.length = K.length →
+      mapM' (fun k => pyIndex (.arr A) k) ((Dsw.argsort K).map fun (i : Nat) => PV.int (i : Int)).reverse =
+        .ok (((Dsw.argsort K).map fun (i : Nat) => PV.int (i : Int)).reverse.map fun k =>
+          match k with
+          | .int i => A.getD i.toNat .none
+          | _ => .none) := by
+    intro A hA
+    apply mapM'_eq_map
+    intro x hx
+    rw [List.mem_reverse, List.mem_map] at hx
+    obtain ⟨i, hi, rfl⟩ := hx
+    have hlt : i < A.length := by rw [hA]; exact (mem_argsort K i).mp hi
+    rw [pyIndex_arr_getD hlt]; simp
+  simp only [mapM'_cons, hrow _ (List.length_map _), R_map_ok, mapM'_nil]
+  exact ⟨_, rfl⟩
+
+/-! ## the latter map: `latter_map[former].index(latter)`, `del`, update, `del latter_map[former]` -/
+
+theorem findIdxEq_nats (l : List Nat) (w : Nat) :
+    findIdxEq (.int (w : Int)) (l.map fun (n : Nat) => PV.int (n : Int)) 0 =
+      if l.contains w then some (l.idxOf w) else Option.none := by
+  induction l with
+  | nil => rfl
+  | cons x xs ih =>
+    rw [List.map_cons, findIdxEq_cons, eqb_int, natCast_beq, Nat.zero_add, GzV.findIdxEq_succ, ih,
+      List.contains_cons, List.idxOf_cons, BEq.comm (a := w)]
+    cases h : (x == w)
+    · cases xs.contains w <;> simp
+    · simp
+
+/-- `latter_map[former].index(latter)`. -/
+theorem pyIndexOf_natsPV (l : List Nat) (w : Nat) :
+    pyIndexOf (natsPV l) (.int (w : Int)) =
+      if l.contains w then .ok (.int ((l.idxOf w : Nat) : Int)) else .error .valueError := by
+  simp only [pyIndexOf, natsPV, findIdxEq_nats]
+  cases l.contains w <;> rfl
+
+theorem map_eraseIdx' {α β} (f : α → β) (l : List α) (i : Nat) : (l.map f).eraseIdx i = (l.eraseIdx i).map f := by
+  induction l generalizing i with
+  | nil => rfl
+  | cons x xs ih =>
+    cases i with
+    | zero => rfl
+    | succ i => simp [ih]
+
+/-- `del l[i]`. -/
+theorem pyDelItem_natsPV {l : List Nat} {i : Nat} (h : i < l.length) :
+    pyDelItem (natsPV l) (.int (i : Int)) = .ok (natsPV (l.eraseIdx i)) := by
+  simp [pyDelItem, natsPV, normIndex_natCast (n := l.length) h, map_eraseIdx']
+
+/-- one more entry in front of a dict. -/
+def consDict (k x : PV) : PV → PV
+  | .dict ks xs => .dict (k :: ks) (x :: xs)
+  | d => d
+
+theorem pySetItem_dict_cons (k x key v : PV) (ks xs : List PV) :
+    pySetItem (.dict (k :: ks) (x :: xs)) key v =
+      if PV.eqb k key then .ok (.dict (k :: ks) (v :: xs)) else (pySetItem (.dict ks xs) key v).map (consDict k x) := by
+  simp only [pySetItem, findIdxEq_cons]
+  by_cases h : PV.eqb k key = true
+  · simp [h]
+  · simp only [h, Nat.zero_add, GzV.findIdxEq_succ key ks 0]
+    cases findIdxEq key ks 0 with
+    | none => rfl
+    | some j => rfl
+
+theorem pyDelItem_dict_cons (k x key : PV) (ks xs : List PV) :
+    pyDelItem (.dict (k :: ks) (x :: xs)) key =
+      if PV.eqb k key then .ok (.dict ks xs) else (pyDelItem (.dict ks xs) key).map (consDict k x) := by
+  simp only [pyDelItem, findIdxEq_cons]
+  by_cases h : PV.eqb k key = true
+  · simp [h]
+  · simp only [h, Nat.zero_add, GzV.findIdxEq_succ key ks 0]
+    cases findIdxEq key ks 0 with
+    | none => rfl
+    | some j => rfl
+
+theorem consDict_lmapPV (p : Nat × List Nat) (m : LMap) :
+    consDict (.int (p.1 : Int)) (natsPV p.2) (lmapPV m) = lmapPV (p :: m) := rfl
+
+/-- the first entry with key `v` gets the value `l`. -/
+def setFirst (v : Nat) (l : List Nat) : LMap → LMap
+  | [] => []
+  | p :: m => if p.1 == v then (p.1, l) :: m else p :: setFirst v l m
+
+/-- the first entry with key `v` goes. -/
+def delFirst (v : Nat) : LMap → LMap
+  | [] => []
+  | p :: m => if p.1 == v then m else p :: delFirst v m
+
+/-- `latter_map[v] = l` for a key that is there. -/
+theorem pySetItem_lmapPV_old {m : LMap} {v : Nat} {l0 : List Nat} (h : LMap.get? m v = some l0) (l : List Nat) :
+    pySetItem (lmapPV m) (.int (v : Int)) (natsPV l) = .ok (lmapPV (setFirst v l m)) := by
+  induction m with
+  | nil => cases h
+  | cons p m ih =>
+    rw [GzV.get?_cons] at h
+    rw [GzV.lmapPV_cons, pySetItem_dict_cons, eqb_int, natCast_beq, setFirst]
+    cases hb : (p.1 == v)
+    · rw [hb] at h
+      simp only [Bool.false_eq_true, if_false] at h ⊢
+      have ih' := ih h
+      unfold lmapPV at ih'
+      rw [ih', R_map_ok]; rfl
+    · simp only [if_true]; rfl
+
+/-- `del latter_map[v]` for a key that is there. -/
+theorem pyDelItem_lmapPV {m : LMap} {v : Nat} {l0 : List Nat} (h : LMap.get? m v = some l0) :
+    pyDelItem (lmapPV m) (.int (v : Int)) = .ok (lmapPV (delFirst v m)) := by
+  induction m with
+  | nil => cases h
+  | cons p m ih =>
+    rw [GzV.get?_cons] at h
+    rw [GzV.lmapPV_cons, pyDelItem_dict_cons, eqb_int, natCast_beq, delFirst]
+    cases hb : (p.1 == v)
+    · rw [hb] at h
+      simp only [Bool.false_eq_true, if_false] at h ⊢
+      have ih' := ih h
+      unfold lmapPV at ih'
+      rw [ih', R_map_ok]; rfl
+    · simp only [if_true]; rfl
+
+theorem get?_setFirst {m : LMap} {v : Nat} {l0 : List Nat} (h : LMap.get? m v = some l0) (l : List Nat) :
+    LMap.get? (setFirst v l m) v = some l := by
+  induction m with
+  | nil => cases h
+  | cons p m ih =>
+    rw [GzV.get?_cons] at h
+    rw [setFirst]
+    cases hb : (p.1 == v)
+    · rw [hb] at h
+      simp only [Bool.false_eq_true, if_false] at h ⊢
+      rw [GzV.get?_cons, hb]; exact ih h
+    · simp only [if_true]; rw [GzV.get?_cons]; simp [hb]
+
+theorem delFirst_setFirst (m : LMap) (v : Nat) (l : List Nat) : delFirst v (setFirst v l m) = delFirst v m := by
+  induction m with
+  | nil => rfl
+  | cons p m ih =>
+    rw [setFirst, delFirst]
+    cases hb : (p.1 == v)
+    · simp only [Bool.false_eq_true, if_false]; rw [delFirst, hb]; simp [ih]
+    · simp only [if_true]; rw [delFirst]; simp [hb]
+
+/-- a key that is not there: `latter_map[v]` is `KeyError`. -/
+theorem pyIndex_lmapPV_none {m : LMap} {v : Nat} (h : LMap.get? m v = Option.none) :
+    pyIndex (lmapPV m) (.int (v : Int)) = .error .other := by
+  induction m with
+  | nil => rfl
+  | cons p m ih =>
+    rw [GzV.get?_cons] at h
+    rw [GzV.lmapPV_cons, GzV.pyIndex_dict_cons, eqb_int, natCast_beq]
+    cases hb : (p.1 == v)
+    · rw [hb] at h
+      simp only [Bool.false_eq_true, if_false] at h ⊢
+      exact ih h
+    · rw [hb] at h; simp at h
+
+theorem erase1_of_not_mem {m : LMap} {v : Nat} (h : v ∉ m.map (·.1)) (w : Nat) : LMap.erase1 m v w = m := by
+  induction m with
+  | nil => rfl
+  | cons p m ih =>
+    rw [List.map_cons, List.mem_cons, not_or] at h
+    have hp : ¬ p.1 = v := fun e => h.1 e.symm
+    unfold LMap.erase1 at ih ⊢
+    rw [List.filterMap_cons]
+    simp only [hp, if_false]
+    rw [ih h.2]
+
+/-- the model's `erase1` is the update / deletion of the one entry of the key. -/
+theorem erase1_eq {m : LMap} (hm : LMap.KeysNodup m) {v : Nat} {l0 : List Nat} (h : LMap.get? m v = some l0) (w : Nat) :
+    LMap.erase1 m v w =
+      if (l0.eraseIdx (l0.idxOf w)).isEmpty then delFirst v m else setFirst v (l0.eraseIdx (l0.idxOf w)) m := by
+  induction m with
+  | nil => cases h
+  | cons p m ih =>
+    rw [GzV.get?_cons] at h
+    unfold LMap.KeysNodup at hm
+    rw [List.map_cons, List.nodup_cons] at hm
+    rw [setFirst, delFirst]
+    cases hb : (p.1 == v)
+    · rw [hb] at h
+      simp only [Bool.false_eq_true, if_false] at h ⊢
+      have hp : ¬ p.1 = v := by simpa using hb
+      have := ih hm.2 h
+      unfold LMap.erase1 at this ⊢
+      rw [List.filterMap_cons]
+      simp only [hp, if_false]
+      rw [this]
+      split <;> rfl
+    · rw [hb] at h
+      simp only [if_true, Option.some.injEq] at h ⊢
+      have hp : p.1 = v := by simpa using hb
+      have hnot : v ∉ m.map (·.1) := hp ▸ hm.1
+      have := erase1_of_not_mem hnot w
+      unfold LMap.erase1 at this ⊢
+      rw [List.filterMap_cons]
+      simp only [hp, if_true, h]
+      rw [this]
+      split <;> simp_all
+
+/-! ## the score table of the model -/
+
+theorem shape_calc (m : LMap) (k : Nat) (ins del : Bool) :
+    GzS.ShapeS (4 ^ k) (calculateIntersectionScore m k ins del) := by
+  obtain ⟨h1, h2, _⟩ := scoreInv_calc k m ins del (fun _ _ => True) (fun _ _ _ _ => trivial)
+  exact ⟨h1, h2⟩
+
+theorem foldl_rows_max (l : List (Array Nat)) (x : Nat) :
+    l.foldl (fun x r => r.foldl max x) x = (l.map Array.toList).flatten.foldl max x := by
+  induction l generalizing x with
+  | nil => rfl
+  | cons r rs ih =>
+    rw [List.foldl_cons, ih, List.map_cons, List.flatten_cons, List.foldl_append, ← Array.foldl_toList]
+
+/-- the model's global maximum. -/
+theorem mx_eq (sc : Array (Array Nat)) :
+    sc.foldl (fun x r => r.foldl max x) 0 = (sc.toList.map Array.toList).flatten.foldl max 0 := by
+  rw [← Array.foldl_toList, foldl_rows_max]
+
+/-- the model's "row holds the maximum" is membership among the `where` rows. -/
+theorem rows_iff (sc : Array (Array Nat)) (mx v : Nat) :
+    (((List.range sc.size).filter fun v => (sc.getD v #[]).any (· == mx)).contains v) = true ↔
+      v ∈ rowIdx (· == mx) (sc.toList.map Array.toList) 0 := by
+  rw [List.contains_iff_mem, List.mem_filter, List.mem_range, mem_rowIdx]
+  simp only [Nat.zero_le, true_and, Nat.sub_zero, List.getElem?_map, Array.getElem?_toList]
+  constructor
+  · rintro ⟨hv, hany⟩
+    refine ⟨(sc.getD v #[]).toList, ?_, ?_⟩
+    · simp [Array.getD_eq_getD_getElem?, hv]
+    · rw [Array.any_toList]; exact hany
+  · rintro ⟨r, hr, hany⟩
+    by_cases hv : v < sc.size
+    · refine ⟨hv, ?_⟩
+      simp only [Array.getElem?_eq_getElem hv, Option.map_some, Option.some.injEq] at hr
+      subst hr
+      rw [Array.any_toList] at hany
+      simpa [Array.getD_eq_getD_getElem?, hv] using hany
+    · rw [Array.getElem?_eq_none (by omega)] at hr; cases hr
+
+/-- `scores[former]`. -/
+theorem pyIndex_scoresPV {sc : Array (Array Nat)} {v : Nat} (hv : v < sc.size) :
+    pyIndex (scoresPV sc) (.int (v : Int)) =
+      .ok (.arr ((sc.getD v #[]).toList.map fun (x : Nat) => PV.int (x : Int))) := by
+  have hlen : v < (sc.toList.map fun r => PV.arr (r.toList.map fun (x : Nat) => PV.int (x : Int))).length := by
+    simpa using hv
+  rw [scoresPV, pyIndex_arr_getD hlen, List.getD_eq_getElem?_getD, GzS.scores_row hv]; rfl
+
+/-- `unique(where(scores == max(scores))[0])`. -/
+theorem vertex_expr (sc : Array (Array Nat)) (h : (sc.toList.map Array.toList).flatten ≠ []) :
+    (bnd (bnd (bnd (bnd (npMax (scoresPV sc)) fun t => npCmp pyEq (scoresPV sc) t) fun t => npWhere t)
+        fun t => pyIndex t (.int 0)) fun t => npUnique t) =
+      .ok (.arr ((((rowIdx (· == (sc.toList.map Array.toList).flatten.foldl max 0)
+        (sc.toList.map Array.toList) 0).map fun (n : Nat) => (n : Int)).foldr insertInt []).map PV.int)) := by
+  have hrne : sc.toList.map Array.toList ≠ [] := fun he => h (by rw [he]; rfl)
+  rw [scoresPV_eq, npMax_matN h, bnd_ok,
+    npCmp_matN pyEq _ (· == (sc.toList.map Array.toList).flatten.foldl max 0)
+      (fun x => by rw [pyEq_def, eqb_int, natCast_beq])]
+  simp only [bnd_ok]
+  rw [npWhere_rows _ hrne, bnd_ok, npUnique_nats]
+
 end Dsw.Tie.SwR
